@@ -161,8 +161,8 @@ class Gf180Walker(h.HierarchyWalker):
     def mos_module_call(self, params: MosParams) -> h.ExternalModuleCall:
         """Retrieve or create a `Call` for MOS parameters `params`."""
         # First check our cache
-        if params in CACHE.mos_modcalls:
-            return CACHE.mos_modcalls[params]
+        if params in self.mos_modcalls:
+            return self.mos_modcalls[params]
 
         # Not found; create a new `ExternalModuleCall`.
         # First retrieve the `ExternalModule`.
@@ -181,7 +181,7 @@ class Gf180Walker(h.HierarchyWalker):
 
         # Combine the two into a call, cache and return it
         modcall = mod(modparams)
-        CACHE.mos_modcalls[params] = modcall
+        self.mos_modcalls[params] = modcall
         return modcall
 
     def res_module(self, params: PhysicalResistorParams):
@@ -196,8 +196,8 @@ class Gf180Walker(h.HierarchyWalker):
 
     def res_module_call(self, params: PhysicalResistorParams):
         # First check our cache
-        if params in CACHE.res_modcalls:
-            return CACHE.res_modcalls[params]
+        if params in self.res_modcalls:
+            return self.res_modcalls[params]
 
         mod = self.res_module(params)
 
@@ -206,7 +206,7 @@ class Gf180Walker(h.HierarchyWalker):
         modparams = GF180ResParams(r_width=w, r_length=l)
 
         modcall = mod(modparams)
-        CACHE.res_modcalls[params] = modcall
+        self.res_modcalls[params] = modcall
         return modcall
 
     def cap_module(self, params: Any):
@@ -221,8 +221,8 @@ class Gf180Walker(h.HierarchyWalker):
 
     def cap_module_call(self, params: PhysicalCapacitorParams):
         # First check our cache
-        if params in CACHE.cap_modcalls:
-            return CACHE.cap_modcalls[params]
+        if params in self.cap_modcalls:
+            return self.cap_modcalls[params]
 
         mod = self.cap_module(params)
 
@@ -232,7 +232,7 @@ class Gf180Walker(h.HierarchyWalker):
         modparams = GF180CapParams(c_width=w, c_length=l, m=params.mult or 1)
 
         modcall = mod(modparams)
-        CACHE.cap_modcalls[params] = modcall
+        self.cap_modcalls[params] = modcall
         return modcall
 
     def diode_module(self, params: DiodeParams):
@@ -247,8 +247,8 @@ class Gf180Walker(h.HierarchyWalker):
 
     def diode_module_call(self, params: DiodeParams):
         # First check our cache
-        if params in CACHE.diode_modcalls:
-            return CACHE.diode_modcalls[params]
+        if params in self.diode_modcalls:
+            return self.diode_modcalls[params]
 
         mod = self.diode_module(params)
 
@@ -257,7 +257,7 @@ class Gf180Walker(h.HierarchyWalker):
         modparams = GF180DiodeParams(area=w * l, pj=2 * w + 2 * l)
 
         modcall = mod(modparams)
-        CACHE.diode_modcalls[params] = modcall
+        self.diode_modcalls[params] = modcall
         return modcall
 
     def bjt_module(self, params: BipolarParams):
@@ -272,15 +272,15 @@ class Gf180Walker(h.HierarchyWalker):
 
     def bjt_module_call(self, params: BipolarParams):
         # First check our cache
-        if params in CACHE.diode_modcalls:
-            return CACHE.diode_modcalls[params]
+        if params in self.diode_modcalls:
+            return self.diode_modcalls[params]
 
         mod = self.bjt_module(params)
 
         modparams = GF180BipolarParams(m=params.mult or 1)
 
         modcall = mod(modparams)
-        CACHE.bjt_modcalls[params] = modcall
+        self.bjt_modcalls[params] = modcall
         return modcall
 
     def scale_param(self, orig: Optional[h.Scalar], default: h.Prefixed) -> h.Scalar:
